@@ -34,10 +34,12 @@ def deep_copy(v, memo=None):
             return memo[id(v)]
         if isinstance(v, SList):
             c = SList([], v.tag)
+            c.origin = v.origin or v
             memo[id(v)] = c
             c.items = [deep_copy(x, memo) for x in v.items]
         elif isinstance(v, SDict):
             c = SDict({}, v.tag)
+            c.origin = v.origin or v
             memo[id(v)] = c
             c.d = {k: deep_copy(x, memo) for k, x in v.d.items()}
         elif isinstance(v, SSet):
@@ -45,6 +47,7 @@ def deep_copy(v, memo=None):
             memo[id(v)] = c
         else:
             c = SObj(v.cls, {}, v.tag)
+            c.origin = v.origin or v
             memo[id(v)] = c
             c.fields = {k: deep_copy(x, memo) for k, x in v.fields.items()}
         return c
@@ -100,9 +103,34 @@ def concretize(v, model, memo=None):
     return {'__repr__': repr(v)}
 
 
+def sliced_node(world, c, node):
+    """mechanical prefix extraction: the body up to (excluding) the first top-level statement whose
+    source contains c.body_slice['stop_before'], followed by `return <result expression>`"""
+    import copy
+    sm = world.sources[c.module]
+    stop = c.body_slice['stop_before']
+    new = copy.copy(node)
+    body = []
+    found = False
+    for st in node.body:
+        if stop in sm.segment(st):
+            found = True
+            break
+        body.append(st)
+    if not found:
+        raise Unsupported(f"slice marker {stop!r} not found in {c.qualname}")
+    ret = ast.Return(value=ast.parse(c.body_slice['result'], mode='eval').body)
+    ast.copy_location(ret, node.body[-1])
+    ast.fix_missing_locations(ret)
+    new.body = body + [ret]
+    return new
+
+
 def target_funcref(world, c):
     sm = world.sources[c.module]
     node = sm.index[c.qualname]
+    if c.body_slice:
+        node = sliced_node(world, c, node)
     cls = None
     if '.' in c.qualname:
         obj = sm.pymod
@@ -141,6 +169,7 @@ def eval_clause(I, src, env):
     try:
         return I.truth(I.eval(parse_expr(src), env))
     except PyRaise as e:
+        I.st.notes.setdefault('clause_exceptions', []).append(f"{src[:60]}: {e.exc_type.__name__} (line {e.lineno})")
         return False
     finally:
         I.spec_depth -= 1
@@ -180,13 +209,14 @@ def make_run(world, c, combo, use_contracts, spec_builtins):
     invs = {(c.qualname, k): v for k, v in c.invariants.items()}
 
     def run(st):
-        config = {'spec_builtins': spec_builtins, 'invariants': invs,
+        config = {'spec_builtins': spec_builtins, 'invariants': invs, 'watch_attrs': set(c.watch_attrs),
                   'spec_modules': tuple(m for m in world.sources if m.startswith('contracts.') or m == 'pyvc.speclib')}
         I = Interp(world, st, use_contracts=use_contracts, unwind=unwind, top=c.key, config=config)
         args = {}
         for name, spec in combo.items():
             args[name] = spec.make(I, name)
-        old = deep_copy(args)
+        memo = {}
+        old = {k: deep_copy(v, memo) for k, v in args.items()}
         st.notes['inputs'] = old
         genv = dict(c.spec_globals)
         env = Env(dict(args), pyglobals=genv)
@@ -209,9 +239,25 @@ def make_run(world, c, combo, use_contracts, spec_builtins):
             for cl in c.ensures:
                 t = eval_clause(I, cl.expr, post)
                 st.add_vc(cl.name, 'ensures', t, {'level': cl.level})
+            for nm, fn in c.event_clauses.items():
+                try:
+                    ok = bool(fn(list(st.events)))
+                except Exception:      # noqa
+                    ok = False
+                st.add_vc(nm, 'events', ok, {'level': c.level, 'events': [list(map(str, e)) for e in st.events][:40]})
             if c.modifies is not None:
                 for name in args:
-                    if name not in c.modifies:
+                    if name in c.modifies:
+                        continue
+                    fields = [m.split('.', 1)[1] for m in c.modifies if m.startswith(name + '.')]
+                    if fields and isinstance(args[name], SObj) and isinstance(old[name], SObj):
+                        # the listed fields may change, every other field of the object may not
+                        a, b = old[name], args[name]
+                        same = zand(set(a.fields) - set(fields) == set(b.fields) - set(fields),
+                                    *[frame_equal(I, a.fields[k], b.fields[k]) for k in a.fields
+                                      if k not in fields and k in b.fields])
+                        st.add_vc(f"frame.{name}", 'frame', same, {'level': c.level, 'except': fields})
+                    else:
                         st.add_vc(f"frame.{name}", 'frame', frame_equal(I, old[name], args[name]),
                                   {'level': c.level})
         else:
@@ -291,15 +337,25 @@ def apply_contract_at_call(I, c, f, args, kwargs, node):
     genv = dict(c.spec_globals)
     env = Env(dict(bound), pyglobals=genv)
     saved_old = I.config.get('old_env')
-    I.config['old_env'] = Env(deep_copy(dict(bound)), pyglobals=genv)
+    memo = {}
+    I.config['old_env'] = Env({k: deep_copy(v, memo) for k, v in bound.items()}, pyglobals=genv)
     try:
         for i, r in enumerate(c.requires):
             t = eval_clause(I, r, env)
             st.add_vc(f"pre[{c.name}].{i}", 'pre', t, {'level': 'top', 'callee': c.name,
                                                         'line': getattr(node, 'lineno', None)})
             st.assume(t)
-        if c.modifies:
-            raise Unsupported(f"call-site use of contract {c.qualname} which mutates {c.modifies}")
+        # effects: every location listed in `modifies` is havocked (fresh value of the declared kind);
+        # the post-condition then relates the new values to old(...)
+        for path in (c.modifies or []):
+            spec = (c.havoc or {}).get(path)
+            if spec is None or '.' not in path:
+                raise Unsupported(f"call-site use of contract {c.name}: no havoc spec for modified location {path}")
+            pname, field = path.split('.', 1)
+            obj = bound.get(pname)
+            if not isinstance(obj, SObj):
+                raise Unsupported(f"call-site use of contract {c.name}: {pname} is not an object")
+            obj.fields[field] = spec.make(I, st.fresh_name('havoc_' + field))
         for exc, when in (c.call_raises or []):
             if when == 'MAY':
                 t = st.fresh_bool('may_raise')      # the callee may or may not raise
